@@ -254,6 +254,29 @@ Qed.
 
 (* without the Addenda98 condition the statement is false (known finding json:unexported:Addenda98.iatCorrectedData, struct level: C07_addenda98_iat_refuted) *)
 
+(* ------------------------------------------------------------ every excused field of C07_tags_ok_partial is accounted for *)
+
+(* implied by in_domain + valid (C07_keep_from_valid) *)
+Definition valid_implied : list (string * string) :=
+  [ ("FileHeader", "priorityCode"); ("FileHeader", "FileIDModifier"); ("FileHeader", "recordSize");
+    ("FileHeader", "blockingFactor"); ("FileHeader", "formatCode") ].
+Definition known_finding_fields : list (string * string) := [ ("Addenda98", "iatCorrectedData") ].
+
+Definition layout_reads_field (p : string * string) : bool :=
+  existsb (fun L => String.eqb (l_name L) (fst p) && existsb (String.eqb (snd p)) (layout_reads L)) all_layouts.
+
+Lemma excused_accounted :
+  (* the checker reports exactly the excused fields *)
+  tags_ok excused T_File (start T_File) = true /\
+  forallb (fun p => inb p (problems T_File (start T_File))) excused = true /\
+  (* each is: outside the full tree (and then read by no record layout) | one of the three fields the full tree carries,
+     which C07_roundtrip restores | implied by validity | the known finding *)
+  forallb (fun p => inb p hid_full || inb p full_fields || inb p valid_implied || inb p known_finding_fields) excused = true /\
+  forallb (fun p => negb (layout_reads_field p)) hid_full = true /\
+  forallb (fun p => inb p keep_fields) (valid_implied ++ known_finding_fields) = true /\
+  forallb (fun p => inb p (valid_implied ++ known_finding_fields)) keep_fields = true.
+Proof. vm_compute. repeat split; reflexivity. Qed.
+
 (* ------------------------------------------------------------ witnesses *)
 
 Definition adv_witness : val :=
